@@ -5,6 +5,7 @@ go 1.23.0
 require (
 	github.com/fatedier/frp v0.0.0
 	github.com/fatedier/golib v0.5.1
+	github.com/quic-go/quic-go v0.48.2
 	github.com/samber/lo v1.47.0
 	golang.org/x/net v0.39.0
 	golang.org/x/time v0.5.0
@@ -34,7 +35,6 @@ require (
 	github.com/prometheus/client_model v0.5.0 // indirect
 	github.com/prometheus/common v0.48.0 // indirect
 	github.com/prometheus/procfs v0.12.0 // indirect
-	github.com/quic-go/quic-go v0.48.2 // indirect
 	github.com/songgao/water v0.0.0-20200317203138-2b4b6d7c09d8 // indirect
 	github.com/spf13/cobra v1.8.0 // indirect
 	github.com/spf13/pflag v1.0.5 // indirect
